@@ -161,6 +161,9 @@ func RunSharded(r *ev.Run, n int, crashIsViolation bool, extra ...string) {
 
 var harnessFailed bool
 
+// HarnessFailed reports whether a worker died in a way that is not attributable to the library.
+func HarnessFailed() bool { return harnessFailed }
+
 func sigWords(s string) string {
 	s = strings.TrimSpace(s)
 	if len(s) > 60 {
